@@ -62,7 +62,7 @@ def gen_mmspec(rng, k=0, rich=True):
                                  default_lit=lit, late_type=(rng.random() < .25)))
     if rng.random() < .4:
         c = rng.choice(sp.classes)
-        sp.feats.append(dict(owner=c['name'], name='ident', kind='attr', type='EString', many=False, ordered=True, unique=True,
+        sp.feats.append(dict(owner=c['name'], name='ident', kind='attr', type=rng.choice(['EString', 'EString', 'EInt']), many=False, ordered=True, unique=True,
                              cont=False, opp=None, id=True, default_lit=None))
     # containment (at least one many-valued so that forests can grow)
     for i in range(rng.randint(2, 4)):
@@ -227,7 +227,14 @@ def gen_model(rng, sp, built=None, nobj=None, values='boundary', ids_unique=True
                 continue
             r = rng.random()
             if f['id']:
-                if r < .8:
+                if r < .8 and f['type'] == 'EInt':
+                    # an id need not be a string: the reference carries its text
+                    v = len(used_ids) * rng.choice([1, 1, 7]) + rng.choice([0, 1, 100])
+                    while v in used_ids:
+                        v += 1
+                    used_ids.add(v)
+                    setattr(o, f['name'], v)
+                elif r < .8:
                     v = f'id{len(used_ids)}'
                     if values == 'boundary' and rng.random() < .3:
                         # ids that cannot stand for their object in a reference token (each distinct, once per model)
